@@ -33,6 +33,48 @@ def pickle_frame(datapoints, protocol=2, container=list, pair=tuple):
   body = pickle.dumps(obj, protocol=protocol)
   return struct.pack('!I', len(body)) + body
 
+def _py2_str(b, protocol, style):
+  """A python2 8-bit string as python2's pickler emits it (STRING / SHORT_BINSTRING / BINSTRING)."""
+  if protocol == 0:
+    esc = ''.join(chr(c) if 32 <= c < 127 and c not in (39, 92) else '\\x%02x' % c for c in b)
+    return b"S'" + esc.encode('ascii') + b"'\n"
+  if len(b) < 256 and style != 'long':
+    return b'U' + bytes([len(b)]) + b
+  return b'T' + struct.pack('<i', len(b)) + b
+
+
+def _py2_num(x, protocol):
+  if isinstance(x, int) and not isinstance(x, bool):
+    if protocol == 0:
+      return b'I%d\n' % x if -2 ** 63 <= x < 2 ** 63 else b'L%dL\n' % x
+    if -2 ** 31 <= x < 2 ** 31:
+      return b'J' + struct.pack('<i', x)
+    if protocol == 2:
+      raw = x.to_bytes((x.bit_length() + 8) // 8, 'little', signed=True)
+      return b'\x8a' + bytes([len(raw)]) + raw
+    return b'L%dL\n' % x
+  if protocol == 0:
+    return b'F' + fmt_num(float(x)).encode('ascii') + b'\n'
+  return b'G' + struct.pack('>d', float(x))
+
+
+def pickle_frame_py2(datapoints, protocol=2, style='short'):
+  """The same message as a python2 client (carbon-relay on py2, old collectors) pickles it: metric names are
+  8-bit strings holding UTF-8, assembled by hand opcode by opcode (no pickle module involved)."""
+  assert protocol in (0, 1, 2)
+  out = [b'\x80\x02'] if protocol == 2 else []
+  out.append(b'(l' if protocol == 0 else b'](')
+  for n, ts, v in datapoints:
+    name = _py2_str(n.encode('utf-8'), protocol, style)
+    if protocol == 2:
+      item = name + _py2_num(ts, protocol) + _py2_num(v, protocol) + b'\x86\x86'
+    else:
+      item = b'(' + name + b'(' + _py2_num(ts, protocol) + _py2_num(v, protocol) + b't' + b't'
+    out.append(item + (b'a' if protocol == 0 else b''))
+  out.append(b'.' if protocol == 0 else b'e.')
+  body = b''.join(out)
+  return struct.pack('!I', len(body)) + body
+
 
 class Rig(object):
   """Fresh real receiver on a StringTransport + recorder on events.metricReceived + error observer."""
